@@ -35,6 +35,8 @@ def obligations(tier):
     for k in (range(12) if tier == "thorough" else (0, 2, 4, 6)):
       for side in ("L", "R"):
         obs.append(Ob("C19.tifa_tree", F, "tifa_tree", 400, part="%d,%s" % (k, side), what="depth-2 trees z = (x op1 y) op2 w / x op2 (y op1 w) through tifa_analysis (op1 = partition): TypeError anywhere => incompatible_types; else type of z admits the value"))
+    for part in ("0,0", "0,1", "1,0", "1,1"):
+        obs.append(Ob("C19.container_tree", F, "container_tree", 300, part=part, what="depth-2 trees over container operands ([] / [1] / ['s'] / [1.5] / () / (1,) / int / str) with + and * (partition = op1, op2): concatenation from an empty container, repetition, mixes"))
     obs.append(Ob("C19.numeric_twins", F, "numeric_twins", 120, what="an int and the float equal to it typed in the same process, both orders: each keeps the type of its own Python type; 1 << 1.0 and 'ab' * 1.0 still impossible"))
     obs.append(Ob("C19.binop_reach", F, "binop_reach", 60, expect="refute", what="twin: a TypeError cell is reached and reported"))
     return obs
